@@ -282,6 +282,12 @@ fn payouts(rep: &mut Report, tier: &Tier) {
                 add_hops(&mut t, &[k2], &w.creator.public);
                 v.push(t);
             }
+            // a fee-paying transaction without routing path whose first output belongs to a key
+            // that appears nowhere else (not its sender, not a router): if it wins the lottery its
+            // sender is paid, nobody else
+            if let Some(s) = w.ledgers[tip].unspent_of(&k2.public).into_iter().filter(|s| s.amount > 1_000_000).nth(1) {
+                v.push(make_tx(&[s.clone()], &[(key(8).public, 55), (k2.public, s.amount - 55 - 250_000 - salt)], &k2, ts + 1, b"unrouted"));
+            }
             v
         };
         // F: fees, no golden ticket (id 3)
